@@ -14,6 +14,18 @@ CATALOG = {
                 "Thread.start runs run, Executor.map calls submit). Not decided: fairness/OS behaviour, worker death inside the shutdown phase, "
                 "user callbacks re-entering the API on the manager thread. Known findings D3, D4 are listed in known_findings.json.",
     },
+    "C02": {
+        "ref": "DESIGN.md section 4 C02",
+        "technique": "static analysis: wait-set completeness by expression expansion over points-to roles; exhaustive CFG path enumeration with "
+                     "constant propagation of the (result, is_broken, exception) triple; dominance ordering of flag/fail/kill/join; class-hierarchy check",
+        "level": "Decides for all paths of the current source that the manager waits on the sentinel of every registered worker plus both readers, "
+                 "that every path class of the wait function returns the right (is_broken, exception) pair (sentinel-only => TerminatedWorkerError with "
+                 "exit codes, clean pid+sentinel never a crash), that broken => flag, fail all, kill trees (children enumerated before the parent is "
+                 "killed), join, that submit re-raises the stored error under the lock before mutating state, and that the exception classes are the "
+                 "concurrent.futures ones. Crash points and schedules are covered because the rules are path properties, not runs.",
+        "note": "Partial: structural clauses only. Not decided: that the kernel reports sentinel readiness, detection latency, exit-code text, "
+                "the win32 arm. Trusted: extractor, points-to, stdlib semantics of multiprocessing.connection.wait.",
+    },
 }
 
 NOT_APPLICABLE = {}
